@@ -20,12 +20,14 @@ Theorem C07_utilities_nan_at_unavailable_and_selected : forall A na k t,
 Proof. exact accepts_pairs_nan. Qed.
 Print Assumptions C07_utilities_nan_at_unavailable_and_selected.
 
-(* the batch size is clipped to the number of available pairs (annotator index arrays: validated
-   by the exhaustive correspondence only, hence "partial") *)
-Theorem C07_pairs_count_partial : forall y c a,
-  (forall l, a <> AIdx l) -> n_pairs y c a = count_true (ma_avail y c a).
-Proof. exact n_pairs_counts_available_partial. Qed.
-Print Assumptions C07_pairs_count_partial.
+(* the batch size is clipped to the number of available pairs - for all three ways of giving
+   annotators (None, an index array with indices in range, a boolean matrix) x all three ways of
+   giving candidates *)
+Theorem C07_pairs_count : forall y c a,
+  (forall l, a = AIdx l -> Forall (fun j => j < n_annot y) l) ->
+  n_pairs y c a = count_true (ma_avail y c a).
+Proof. exact n_pairs_counts_available. Qed.
+Print Assumptions C07_pairs_count.
 
 (* a boolean annotators matrix is given row-per-candidate in the caller's order; _validate_data
    sorts the candidate indices and permutes the rows along: row r of A_cand is the row the caller
